@@ -193,6 +193,12 @@ func (q *queue) Put(data []byte) error {
 		return ErrExceedingMessageSizeLimit
 	}
 
+	// allocate, copy and publish under one lock: the index entry of sequence n must
+	// describe the n-th allocation, otherwise the write cursor restored from the last
+	// entry on reopen points into an earlier message.
+	q.rwMutex.Lock()
+	defer q.rwMutex.Unlock()
+
 	dataPageIndex, dataPage, offset, err := q.alloc(dataLength)
 	if err != nil {
 		return err
@@ -350,11 +356,8 @@ func (q *queue) GC() {
 	q.indexPageFct.TruncatePages(indexPageID)
 }
 
-// alloc allocates the data page and offset for message writing
+// alloc allocates the data page and offset for message writing(caller must hold the write lock)
 func (q *queue) alloc(dataLen int) (dataPageIndex int64, dataPage page.MappedPage, offset int, err error) {
-	q.rwMutex.Lock()
-	defer q.rwMutex.Unlock()
-
 	// prepare the data pointer
 	if q.messageOffset+dataLen > dataPageSize {
 		// sync previous data page
@@ -379,11 +382,8 @@ func (q *queue) alloc(dataLen int) (dataPageIndex int64, dataPage page.MappedPag
 	return q.dataPageIndex, q.dataPage, messageOffset, nil
 }
 
-// persistMetaOfMessage persists metadata of message after write data
+// persistMetaOfMessage persists metadata of message after write data(caller must hold the write lock)
 func (q *queue) persistMetaOfMessage(dataPageIndex int64, dataLen, messageOffset int) error {
-	q.rwMutex.Lock()
-	defer q.rwMutex.Unlock()
-
 	seq := q.appendedSeq.Load() + 1 // append sequence
 	indexPageIndex := seq / indexItemsPerPage
 	if indexPageIndex != q.indexPageIndex {
